@@ -22,6 +22,9 @@ void splinetable<Alloc>::convolve(const uint32_t dim, const double* conv_knots, 
 	/* Construct the new knot field. */
 	size_t n_rho = 0;
 	const uint32_t convorder = order[dim] + n_conv_knots - 1;
+	//(read now: the kernel knots may be knots of this very table, whose arrays
+	//are replaced below)
+	const double first_conv_knot = conv_knots[0];
 	std::unique_ptr<double[]> rho_scratch(new double[nknots[dim]*n_conv_knots + 2*convorder]);
 	double* rho = rho_scratch.get() + convorder;
 	for (uint32_t i = 0; i < nknots[dim]; i++)
@@ -172,7 +175,7 @@ void splinetable<Alloc>::convolve(const uint32_t dim, const double* conv_knots, 
 	 * the extent of the spline by half the support of the spline kernel so
 	 * that the surface will remain monotonic over its full extent.
 	 */
-	this->extents[dim][1] += conv_knots[0];
+	this->extents[dim][1] += first_conv_knot;
 }
 
 } //namespace photospline
